@@ -143,7 +143,7 @@ pub fn samples(kind: u64, n: usize) -> Vec<i16> {
     (0..n)
         .map(|i| match kind {
             0 => 0,
-            1 => (i as i16).wrapping_mul(3) - 100,
+            1 => (i as i16).wrapping_mul(3).wrapping_sub(100),
             2 => i16::MIN,
             3 => i16::MAX,
             // sum of first 64 = -1 (remainder < 0 for the floor mean)
